@@ -255,6 +255,66 @@ def run(tier: str) -> Run:
         r3.check(not exposed and not leaking, fq, loc(fi),
                  {'cached_result_class': ci.name, 'public_mutable_fields': exposed, 'non_copying_accessors': leaking},
                  key=f'{fq}')
+    # ---- R5: histories (interpreted, one world per history) -----------------------------------------
+    r5 = run.rule('R5', 'histories in one world (module-level tables, caches and iterators persist between the calls): a graph factory called again '
+                        'after its first result was emptied and overwritten by the caller hands out the graph of a fresh interpreter; a bundled-table '
+                        'lookup answers the same after any other lookup', 10)
+    from sa.interp import FuncRef, Interp, RaiseSignal
+    from sa.scipp_model import Model
+
+    def signature(g):
+        return tuple((str(k), v.fi.fq if isinstance(v, FuncRef) else repr(v)) for k, v in g.items()) if isinstance(g, dict) else repr(g)
+    factory_args = {'elastic': [{'start': 'tof'}, {'start': 'wavelength'}, {'start': 'Q'}], 'kinematic': [{'start': 'tof'}],
+                    'beamline': [{'scatter': True}, {'scatter': False}], 'Ltotal': [{'scatter': True}, {'scatter': False}],
+                    'conversion_graph': [{'origin': 'tof', 'target': 'wavelength', 'scatter': True, 'energy_mode': 'elastic'},
+                                         {'origin': 'tof', 'target': 'L2', 'scatter': True, 'energy_mode': 'elastic'},
+                                         {'origin': 'tof', 'target': 'wavelength', 'scatter': False, 'energy_mode': 'elastic'}]}
+    for mod, name in GRAPH_FACTORIES:
+        ffi = repo.func(mod, name)
+        params = [a_.arg for a_ in ffi.node.args.posonlyargs + ffi.node.args.args + ffi.node.args.kwonlyargs]
+        variants = factory_args.get(name)
+        if variants is None:
+            if params and name != 'deduce_conversion_graph':
+                variants = None
+            elif not params:
+                variants = [{}]
+        if not variants:
+            continue  # (needs a data object: decided by the effect summaries above and by C02)
+
+        def request(i, kw, ffi=ffi):
+            try:
+                return i.call_function(ffi, [], dict(kw))
+            except RaiseSignal as r_:
+                return ('raise', r_.exc_type)
+        T.reset()
+        it5 = Interp(repo, Model())
+        fresh = {}
+        for k_, kw in enumerate(variants):
+            fresh[k_] = [signature(o.value) for o in it5.run_all(lambda i, kw=kw: request(i, kw))]
+        bad = []
+        n5 = 0
+        for a_, kwa in enumerate(variants):
+            for b_, kwb in enumerate(variants):
+                n5 += 1
+
+                def history(i, kwa=kwa, kwb=kwb):
+                    g1 = request(i, kwa)
+                    if isinstance(g1, dict):
+                        # the caller does what it likes with the result
+                        for key in list(g1):
+                            g1[key] = 'overwritten by the caller'
+                        i.note_store(g1)
+                        g1.clear()
+                    i.end_of_call()
+                    return request(i, kwb)
+                got = [signature(o.value) for o in it5.run_all(history)]
+                if got != fresh[b_]:
+                    bad.append({'history': [str(kwa), 'result emptied by the caller', str(kwb)], 'fresh': str(fresh[b_])[:160], 'after': str(got)[:160]})
+        r5.check(not bad, f'{mod}:{name}', loc(ffi), {'histories': n5, 'histories_with_another_graph': len(bad), 'first': bad[:1]}, key=f'history:{mod}:{name}')
+    from .c20 import lookup_histories, read_tables
+    for cls_name, lfi7, n7, bad7 in lookup_histories(repo, read_tables(repo)):
+        r5.check(not bad7, f'atoms:{cls_name}.for_isotope', loc(lfi7), {'histories': n7, 'histories_with_another_answer': len(bad7), 'first': bad7[:1]},
+                 key=f'history:atoms:{cls_name}')
     run.extra['public_functions'] = n_pub
     run.extra['allowed_mutators'] = ALLOWED_MUTATORS
     return run
